@@ -216,4 +216,57 @@ def stepErrName : StepRes → Option Str
   | .error k => some k.rustName
   | .ok _ => none
 
+/-! ### names that only resemble a known name -/
+
+/-- every element name some level of the parser knows -/
+def allElementNames : List Str :=
+  sGlyph :: (bodyStartNames ++ bodyEmptyNames ++ outlineStartNames ++ outlineEmptyNames ++ contourEmptyNames)
+/-- every attribute name some attribute loop knows -/
+def allAttrNames : List Str := gKeys ++ advKeys ++ uniKeys ++ aKeys ++ guKeys ++ iKeys ++ cKeys ++ pKeys ++ ctKeys
+def knownNames : List Str := allElementNames ++ allAttrNames
+
+def lettersOnly (T : List Str) : Bool := T.all (fun n => n.all Char.isAlpha)
+
+/-- a known name consists of ASCII letters and nothing else -/
+theorem knownNames_letters : lettersOnly knownNames = true := by decide
+
+/-- a name with a character that is not an ASCII letter (a colon, a blank of any kind, a control character, a dot, a digit)
+    is in no table that consists of letters only -/
+theorem not_in_of_nonletter {T : List Str} (hT : lettersOnly T = true) {n : Str} {c : Char} (hc : c ∈ n)
+    (hl : c.isAlpha = false) : T.contains n = false := by
+  cases h : T.contains n with
+  | false => rfl
+  | true =>
+    have hm : n ∈ T := List.contains_iff_mem.1 h
+    have h1 := (List.all_eq_true.1 hT) n hm
+    have h2 := (List.all_eq_true.1 h1) c hc
+    rw [hl] at h2; cases h2
+
+def lowerStr (n : Str) : Str := n.map Char.toLower
+
+/-- no two different known names differ by case only -/
+theorem knownNames_case : knownNames.all (fun a => knownNames.all (fun b => a == b || lowerStr a != lowerStr b)) = true := by
+  decide +kernel
+
+/-- a name that differs from a known name by case only is not a known name -/
+theorem case_variant_unknown {n n' : Str} (hn : n ∈ knownNames) (hne : n' ≠ n) (hl : lowerStr n' = lowerStr n) :
+    knownNames.contains n' = false := by
+  cases h : knownNames.contains n' with
+  | false => rfl
+  | true =>
+    have hm : n' ∈ knownNames := List.contains_iff_mem.1 h
+    have h1 := (List.all_eq_true.1 ((List.all_eq_true.1 knownNames_case) n' hm)) n hn
+    simp only [Bool.or_eq_true, beq_iff_eq, bne_iff_ne, ne_eq] at h1
+    rcases h1 with h1 | h1
+    · exact absurd h1 hne
+    · exact absurd hl h1
+
+theorem contains_false_of_sub {T U : List Str} (hs : U.all (T.contains ·) = true) {n : Str} (h : T.contains n = false) :
+    U.contains n = false := by
+  cases hu : U.contains n with
+  | false => rfl
+  | true =>
+    have := (List.all_eq_true.1 hs) n (List.contains_iff_mem.1 hu)
+    rw [h] at this; cases this
+
 end Glif
